@@ -21,7 +21,7 @@
 EXTENDS Integers, Sequences, FiniteSets, TLC, Json, IOUtils
 
 Rec == ndJsonDeserialize(IOEnv.TRACE)
-Kinds == {"add", "stream", "get", "die", "st", "creq", "cserved", "cdone", "csessions", "calive", "ckill", "cstate", "end"}
+Kinds == {"add", "stream", "get", "die", "st", "creq", "cserved", "cdone", "csessions", "calive", "ckill", "cstate", "cres", "end"}
 
 InitSt(e) == [CI |-> IF "consts" \in DOMAIN e THEN e.consts.CI ELSE 1,
               IT |-> IF "consts" \in DOMAIN e THEN e.consts.IT ELSE 1,
@@ -30,7 +30,9 @@ InitSt(e) == [CI |-> IF "consts" \in DOMAIN e THEN e.consts.CI ELSE 1,
               cact |-> <<>>,       \* client level: session -> active requests
               cof |-> <<>>,        \* request -> session
               cinmap |-> {},       \* client level: sessions the idle map holds under the pinned design (dialled, not yet reused)
-              cclosed |-> {}]
+              cclosed |-> {},
+              canon |-> 0,         \* client-seq: sessions dialled by a request that failed (identity unknown): -1, -2, ...
+              cunsure |-> FALSE]   \* client-seq: the validator no longer knows which entry left the map
 
 Ok(s)      == [ok |-> TRUE, st |-> s, why |-> "", dev |-> "", site |-> ""]
 No(s, why) == [ok |-> FALSE, st |-> s, why |-> why, dev |-> "", site |-> ""]
@@ -52,18 +54,18 @@ Tick(s, e) ==
         s2 == [s EXCEPT !.closed = now \cup s.died, !.inmap = {x \in s.inmap : x \notin now /\ x \notin s.died}]
     IN  IF newly = {} THEN
              IF e.t % s.CI = 0 /\ Cardinality(expiredLeft) > s.MI
-             THEN No(s, "idle sessions beyond the minimum survived a reaper tick although they were idle longer than the timeout")
+             THEN No(s, "C12: idle sessions beyond the minimum survived a reaper tick although they were idle longer than the timeout")
              ELSE Ok(s2)
-        ELSE IF e.t % s.CI # 0 THEN No(s, "a session was closed by the pool between reaper ticks")
-        ELSE IF \E x \in newly : x \notin s.inmap THEN No(s, "the reaper closed a session that was not in the idle map")
-        ELSE IF \E x \in newly : e.t - s.since[x] < s.IT THEN No(s, "the reaper closed a session that had not been idle for the timeout")
+        ELSE IF e.t % s.CI # 0 THEN No(s, "C12: a session was closed by the pool between reaper ticks")
+        ELSE IF \E x \in newly : x \notin s.inmap THEN No(s, "C12: the reaper closed a session that was not in the idle map")
+        ELSE IF \E x \in newly : e.t - s.since[x] < s.IT THEN No(s, "C12: the reaper closed a session that had not been idle for the timeout")
         ELSE IF Cardinality(after) < (IF Cardinality(before) < s.MI THEN Cardinality(before) ELSE s.MI)
              THEN IF Cardinality(afterAll) >= (IF Cardinality(beforeAll) < s.MI THEN Cardinality(beforeAll) ELSE s.MI)
                      /\ \E x \in afterAll : s.streams[x] > 0
                   THEN Dv(s2, "ReaperClosesSessionInUse", "reaper-minimum")
-                  ELSE No(s, "the reaper left fewer idle sessions than the configured minimum")
+                  ELSE No(s, "C12: the reaper left fewer idle sessions than the configured minimum")
         ELSE IF Cardinality(expiredLeft) > s.MI
-             THEN No(s, "idle sessions beyond the minimum survived a reaper tick although they were idle longer than the timeout")
+             THEN No(s, "C12: idle sessions beyond the minimum survived a reaper tick although they were idle longer than the timeout")
         ELSE IF \E x \in newly : s.streams[x] > 0 THEN Dv(s2, "ReaperClosesSessionInUse", "reaper")
         ELSE Ok(s2)
 
@@ -72,10 +74,10 @@ Apply(s, e) ==
       [] e.ev = "stream" -> Ok([s EXCEPT !.streams[e.s] = @ + e.d])
       [] e.ev = "die" -> Ok([s EXCEPT !.died = @ \cup {e.s}])
       [] e.ev = "get" ->
-            IF e.res # 0 /\ e.closed THEN No(s, "the pool handed out a session that is already closed")
-            ELSE IF e.res # 0 /\ e.res \notin s.inmap THEN No(s, "the pool handed out a session that was not in the idle map")
+            IF e.res # 0 /\ e.closed THEN No(s, "C12: the pool handed out a session that is already closed")
+            ELSE IF e.res # 0 /\ e.res \notin s.inmap THEN No(s, "C12: the pool handed out a session that was not in the idle map")
             ELSE IF e.res = 0 /\ \E x \in s.inmap : x \notin s.closed /\ x \notin s.died
-                 THEN No(s, "the pool reported no idle session although a healthy one was in the map")
+                 THEN No(s, "C13: the pool reported no idle session although a healthy one was in the map")
             ELSE IF e.res = 0 THEN Ok([s EXCEPT !.inmap = {}])
             ELSE \* newest first; closed entries above it are dropped on the way
                  Ok([s EXCEPT !.inmap = {x \in @ : x < e.res}])
@@ -90,22 +92,54 @@ Apply(s, e) ==
                 s2 == [s EXCEPT !.cact = Put(@, e.s, (IF e.s \in DOMAIN s.cact THEN s.cact[e.s] ELSE 0) + 1),
                                 !.cof = Put(@, e.r, e.s),
                                 !.cinmap = IF e.new THEN @ \cup {e.s} ELSE @ \ {e.s}]
-            IN  IF e.sclosed \/ e.s \in s.cclosed THEN No(s, "a request was served on a closed session")
-                ELSE IF e.new /\ held # {} THEN No(s, "a new session was dialled although the idle map holds a healthy session")
-                ELSE IF ~e.new /\ e.s \notin s.cinmap THEN No(s, "a request was served on a session the pool cannot hold (handed out twice)")
+            IN  IF e.sclosed \/ e.s \in s.cclosed THEN No(s, "C12: a request was served on a closed session")
+                ELSE IF e.new /\ held # {} THEN No(s, "C13: a new session was dialled although the idle map holds a healthy session")
+                ELSE IF ~e.new /\ e.s \notin s.cinmap THEN No(s, "C12: a request was served on a session the pool cannot hold (handed out twice)")
                 ELSE IF e.new /\ idle # {} THEN Dv(s2, "SessionNeverReturnedToPool", "client")   \* healthy idle sessions exist but none is in the map
                 ELSE Ok(s2)
+      [] e.ev = "cres" ->
+            \* client-seq (reaper out of reach): the validator owns the idle map AND the health of every
+            \* session - a session dies only when the harness kills it (ckill)
+            LET held == {x \in s.cinmap : x \notin s.cclosed}
+                idle == {x \in DOMAIN s.cact : s.cact[x] = 0 /\ x \notin s.cclosed}
+                anon == {x \in held : x < 0}
+                known == e.ok /\ e.s \in DOMAIN s.cact
+                a == IF anon = {} THEN 0 ELSE CHOOSE x \in anon : \A y \in anon : x <= y       \* the newest anonymous one
+                Bump(f, k) == Put(f, k, (IF k \in DOMAIN f THEN f[k] ELSE 0) + 1)
+                upd ==
+                    IF e.overlap /\ e.ok /\ ~known /\ anon # {}
+                    THEN \* a burst cannot tell a dial from the reuse of a session the harness has never seen
+                         [s EXCEPT !.cunsure = TRUE, !.cact = Bump(@, e.s), !.cof = Put(@, e.r, e.s)]
+                    ELSE IF e.dialled >= 1 /\ e.ok THEN [s EXCEPT !.cinmap = @ \cup {e.s}, !.cact = Bump(@, e.s), !.cof = Put(@, e.r, e.s)]
+                    ELSE IF e.dialled >= 1 THEN [s EXCEPT !.canon = @ + 1, !.cinmap = @ \cup {-(s.canon + 1)}, !.cact = Put(@, -(s.canon + 1), 0)]
+                    ELSE IF known THEN [s EXCEPT !.cinmap = @ \ {e.s}, !.cact = Bump(@, e.s), !.cof = Put(@, e.r, e.s)]
+                    ELSE IF e.ok THEN \* a session the harness has not seen yet: one dialled by a failed request
+                         [s EXCEPT !.cinmap = @ \ {a}, !.cclosed = @ \cup {a}, !.cact = Bump(@, e.s), !.cof = Put(@, e.r, e.s)]
+                    ELSE \* a failed request that reused an entry: it left the map; which one is known only if there was one
+                         IF Cardinality(held) = 1 THEN [s EXCEPT !.cinmap = @ \ held] ELSE [s EXCEPT !.cunsure = TRUE]
+            IN  IF e.ok /\ e.sclosed THEN No(s, "C12: a request was served on a closed session")
+                ELSE IF e.ok /\ e.s \in s.cclosed THEN No(s, "C12: a request was served on a closed session")
+                ELSE IF ~e.ok /\ e.reach /\ held # {} /\ ~e.overlap /\ ~s.cunsure
+                     THEN No(s, "C12+C13: a request to a reachable destination failed although the idle map holds a healthy session (it was put on a dead one)")
+                ELSE IF ~e.ok /\ e.reach THEN No(s, "C12: a request to a reachable destination failed although server and network are healthy (it was put on a dead session)")
+                ELSE IF e.overlap \/ s.cunsure THEN Ok(upd)
+                ELSE IF e.dialled > 1 THEN No(s, "C13: one request dialled more than one TLS connection")
+                ELSE IF e.dialled = 1 /\ held # {} THEN No(s, "C13: a new session was dialled although the idle map holds a healthy session")
+                ELSE IF e.dialled = 0 /\ known /\ e.s \notin s.cinmap THEN No(s, "C12: a request was served on a session the pool cannot hold (handed out twice)")
+                ELSE IF e.dialled = 0 /\ e.ok /\ ~known /\ anon = {} THEN No(s, "C12: a request was served on a session the pool cannot hold (handed out twice)")
+                ELSE IF e.dialled = 1 /\ idle # {} THEN Dv(upd, "SessionNeverReturnedToPool", "client")
+                ELSE Ok(upd)
       [] e.ev = "cdone" -> Ok([s EXCEPT !.cact[s.cof[e.r]] = @ - 1])
       [] e.ev = "csessions" ->
             IF e.open <= e.peak + e.mi THEN Ok(s) ELSE Dv(s, "SessionNeverReturnedToPool", "client")
       [] e.ev = "calive" ->
             IF e.ok THEN Ok(s)
             ELSE IF e.sclosed THEN Dv(s, "ReaperClosesSessionInUse", "client")
-            ELSE No(s, "a long-lived stream stopped working although its session is open")
+            ELSE No(s, "C12: a long-lived stream stopped working although its session is open")
       [] e.ev = "end" -> IF e.panics = 0 THEN Ok(s) ELSE No(s, "a task panicked")
       [] OTHER -> No(s, "unknown event")
 
-NonTrivial(e, r) == r.ok /\ (e.ev = "st" \/ e.ev = "cserved" \/ e.ev = "get")
+NonTrivial(e, r) == r.ok /\ (e.ev = "st" \/ e.ev = "cserved" \/ e.ev = "cres" \/ e.ev = "get")
 
 VARIABLES l, st, bad, devs, skip, scn, cnt, nt
 TK == INSTANCE TraceKit
